@@ -66,13 +66,21 @@ const FAULT_KINDS: [(ErrorKind, &str); 7] = [
 ];
 
 fn run_case(prior: PortSettings, entry: Entry, fault: Fault, fk: usize, rep: &mut Report) {
-    let sig = format!("{:?}|{:?}|{:?}|{}", prior, entry, fault, fk);
+    run_case_budget(prior, entry, fault, fk, usize::MAX, rep)
+}
+
+/// `budget`: how many times the injected fault fires (usize::MAX = the port keeps refusing). A fault that fires only
+/// once or twice may be ridden out by an implementation that retries, so for those the rule is: Ok => fully configured,
+/// Err => the injected error.
+fn run_case_budget(prior: PortSettings, entry: Entry, fault: Fault, fk: usize, budget: usize, rep: &mut Report) {
+    let sig = format!("{:?}|{:?}|{:?}|{}|{}", prior, entry, fault, fk, budget);
     rep.case(Some(fnv(sig.as_bytes())));
     rep.count(&format!("cells/{}/{:?}", match entry { Entry::ConfigurePort(_) => "configure_port", Entry::SerialSignBus => "SerialSignBus", Entry::Odk => "Odk" }, fault));
     let st = doubles::shared(prior);
     let injected = FAULT_KINDS[fk];
     {
         let mut s = st.borrow_mut();
+        s.fault_budget = budget;
         match fault {
             Fault::None => {}
             Fault::ReadSettings => s.fail_read_settings = Some(injected),
@@ -130,7 +138,12 @@ fn run_case(prior: PortSettings, entry: Entry, fault: Fault, fk: usize, rep: &mu
         _ => false,
     });
     // a fault the implementation never ran into cannot be expected to surface
-    let effective = if reached { fault } else { Fault::None };
+    // a transient fault that the implementation rode out (it retried and succeeded) is judged like "no fault"
+    let transient_ridden_out = budget != usize::MAX && res.is_ok();
+    if budget != usize::MAX {
+        rep.count("transient_fault_cases");
+    }
+    let effective = if reached && !transient_ridden_out { fault } else { Fault::None };
     if reached {
         rep.count("faults_reached");
     }
@@ -184,6 +197,14 @@ pub fn run(ctx: &Ctx) -> Outcome {
                 run_case(prior, e, fault, (i + j) % FAULT_KINDS.len(), rep);
             }
         }
+        // transient refusals: the fault fires only once (or twice), at every fault point, for every entry point
+        for (j, e) in [Entry::ConfigurePort(777), Entry::SerialSignBus, Entry::Odk].into_iter().enumerate() {
+            for fault in [Fault::ReadSettings, Fault::Baud, Fault::WriteSettings, Fault::SetTimeout] {
+                for budget in [1usize, 2] {
+                    run_case_budget(prior, e, fault, (i + j + budget) % FAULT_KINDS.len(), budget, rep);
+                }
+            }
+        }
         // every error kind at every fault point (persistent faults), on a few priors per shard
         if i % 16 == 0 {
             for fk in 0..FAULT_KINDS.len() {
@@ -199,6 +220,7 @@ pub fn run(ctx: &Ctx) -> Outcome {
     });
     let mut floors = vec![
         floor("all 864 prior settings", report.get("priors_done") == 864, report.get("priors_done")),
+        floor("transient (one- and two-shot) refusals at every fault point for every prior", report.get("transient_fault_cases") == 864 * 3 * 4 * 2, report.get("transient_fault_cases")),
         floor("every error kind (7, incl. Interrupted) at every fault point (4)", report.set_len("fault_kind_x_point") == 28, report.set_len("fault_kind_x_point")),
     ];
     for e in ["configure_port", "SerialSignBus", "Odk"] {
@@ -210,7 +232,7 @@ pub fn run(ctx: &Ctx) -> Outcome {
     Outcome {
         report,
         level: "fault_enumeration",
-        rule: "complete product: 12 baud values x 4 character sizes x 3 parities x 2 stop bits x 3 flow controls = 864 prior settings x 3 entry points (configure_port with timeouts 0, 1 ms, 5 s, 1 h; SerialSignBus::try_new; Odk::try_new) x (no fault + a persistent failure of read_settings / baud-rate setter / write_settings / set_timeout), plus all 7 error kinds (NoDevice, InvalidInput, Io(PermissionDenied / Interrupted / TimedOut / WouldBlock / Other)) at every fault point on a sample of priors; distinct by (prior, entry, fault); all non-trivial".into(),
+        rule: "complete product: 12 baud values x 4 character sizes x 3 parities x 2 stop bits x 3 flow controls = 864 prior settings x 3 entry points (configure_port with timeouts 0, 1 ms, 5 s, 1 h; SerialSignBus::try_new; Odk::try_new) x (no fault + a persistent failure of read_settings / baud-rate setter / write_settings / set_timeout), plus one- and two-shot refusals at every fault point for every prior, plus all 7 error kinds (NoDevice, InvalidInput, Io(PermissionDenied / Interrupted / TimedOut / WouldBlock / Other)) at every fault point on a sample of priors; distinct by (prior, entry, fault); all non-trivial".into(),
         exhaustive: true,
         floors,
         assumptions: vec![
